@@ -86,21 +86,24 @@ type Grammar struct {
 	// Raw, when set, is the grammar text itself (with %PKG% for the package name): hand-written
 	// code blocks for the few shapes the monitor's uniform blocks cannot express. Rules is then only
 	// a stand-in (Print returns Raw).
-	Raw       string
-	Rules     []*Rule
-	UsesState bool // some block touches c.state (grammar has state blocks)
-	NExprs    int
-	byName    map[string]*Rule
+	Raw string
+	// IndirectState: code blocks reach the state store through a helper that takes the receiver
+	// (verifSt(c)) instead of spelling c.state - what a grammar with helper functions does.
+	IndirectState bool
+	Rules         []*Rule
+	UsesState     bool // some block touches c.state (grammar has state blocks)
+	NExprs        int
+	byName        map[string]*Rule
 }
 
 // Rule returns the rule by name (nil if undefined).
 func (g *Grammar) Rule(name string) *Rule {
 	if g.byName == nil {
 		g.byName = map[string]*Rule{}
+		// a rule defined twice: the LAST definition is the one every reference (and the entry point)
+		// resolves to - pigeon's name table and the generated parser's rule table both work that way
 		for _, r := range g.Rules {
-			if _, dup := g.byName[r.Name]; !dup {
-				g.byName[r.Name] = r
-			}
+			g.byName[r.Name] = r
 		}
 	}
 	return g.byName[name]
@@ -283,6 +286,9 @@ func analyze(g *Grammar, conv bool) *Analysis {
 	for changed := true; changed; {
 		changed = false
 		for _, r := range g.Rules {
+			if g.Rule(r.Name) != r {
+				continue // shadowed by a later definition
+			}
 			if !a.Nullable[r.Name] && a.ExprNullable(r.Expr) {
 				a.Nullable[r.Name] = true
 				changed = true
@@ -290,6 +296,9 @@ func analyze(g *Grammar, conv bool) *Analysis {
 		}
 	}
 	for _, r := range g.Rules {
+		if g.Rule(r.Name) != r {
+			continue
+		}
 		m := map[string]bool{}
 		a.firstCalls(r.Expr, m)
 		a.First[r.Name] = m
